@@ -400,6 +400,40 @@ func (fr *Frame) envAt(b *ssa.BasicBlock, idx int, st *State, phiMap map[*ssa.Ph
 		v, ok := fr.lastRes[name]
 		return v, ok
 	}
+	env.iterAlloc = func() (string, bool) {
+		var best *loopInfo
+		for bb := b; bb != nil && best == nil; bb = bb.Idom() {
+			for _, li := range fr.loops {
+				if li.header != bb && !li.body[bb] {
+					continue
+				}
+				if best == nil || len(li.body) < len(best.body) {
+					best = li
+				}
+			}
+		}
+		if best == nil || best.hdrSt == nil {
+			return "", false
+		}
+		return fr.e.get(best.hdrSt, "alloc"), true
+	}
+	env.addrOf = func(name string) (Val, bool) {
+		for _, blk := range fr.fn.Blocks {
+			if blk != b && !blk.Dominates(b) {
+				continue
+			}
+			for k, in := range blk.Instrs {
+				al, ok := in.(*ssa.Alloc)
+				if !ok || al.Comment != name || (blk == b && k >= idx && idx >= 0) {
+					continue
+				}
+				if v, done := fr.vals[al]; done {
+					return v, true
+				}
+			}
+		}
+		return Val{}, false
+	}
 	env.visitedComp = func() string {
 		// the iterator of the innermost map-range loop around (b, idx): the last one whose Range dominates
 		best := ""
@@ -824,7 +858,7 @@ func (fr *Frame) exec(reach string, st *State) (string, *State, []Val) {
 			if strings.HasPrefix(c.Key, "return#") && !fr.matched[c] {
 				e.unsupported = append(e.unsupported, fmt.Sprintf("%s: %s %q [%s] matches no reachable return statement (%s:%d)", fr.prefix, c.Kind, c.Key, labelOr(c), c.File, c.Line))
 			}
-			if strings.HasPrefix(c.Key, "call ") && !fr.matched[c] {
+			if strings.HasPrefix(c.Key, "call ") && !fr.matched[c] && !c.Optional {
 				e.unsupported = append(e.unsupported, fmt.Sprintf("%s: %s %q [%s] matches no call site (%s:%d)", fr.prefix, c.Kind, c.Key, labelOr(c), c.File, c.Line))
 			}
 		}
@@ -1188,6 +1222,10 @@ func (fr *Frame) step(in ssa.Instruction, incoming map[*ssa.BasicBlock][]edgeIn,
 			}
 			fr.assertAtCall(name, args, x.Call.Signature())
 			fr.effectCheckCallee(x.Call.StaticCallee(), name)
+			fr.captureCheck(x.Call.Value, "go")
+			for _, a := range x.Call.Args {
+				fr.captureCheck(a, "go")
+			}
 		}
 		e.assume("goroutine bodies are not interleaved (" + fr.prefix + " spawns one); shared state is covered only through lockset obligations")
 	case *ssa.Store:
@@ -1366,15 +1404,18 @@ func (fr *Frame) assertAtJoin(p *ssa.Phi) {
 // assert-at send <label>: e   - checked at every channel send (plain or in a select) of the function;
 // `chan` and `value` name the channel and the value sent
 func (fr *Frame) assertAtSend(ch, v Val) {
-	if fr.spec == nil {
-		return
+	for _, o := range fr.clauseFrames() {
+		fr.assertAtSendFor(o, ch, v)
 	}
-	for _, c := range fr.spec.Asserts {
+}
+
+func (fr *Frame) assertAtSendFor(o *Frame, ch, v Val) {
+	for _, c := range o.spec.Asserts {
 		if c.Key != "send" {
 			continue
 		}
-		fr.matched[c] = true
-		env := fr.envAt(fr.block, fr.idx, fr.cur.st, nil)
+		o.matched[c] = true
+		env := o.envAt(o.block, o.idx, fr.cur.st, nil)
 		env.names["chan"] = ch
 		env.names["value"] = v
 		t, err := env.Goal(c.Expr)
@@ -1606,7 +1647,11 @@ func (fr *Frame) value(v ssa.Value) Val {
 		e.set(cur.st, dom, "(store "+d+" "+r+" ((as const (Array "+e.sortOf(mt.Key())+" Bool)) false))")
 		return Val{T: r, Ty: x.Type()}
 	case *ssa.MakeChan:
-		return Val{T: fr.newRef("chan"), Ty: x.Type()}
+		r := fr.newRef("chan")
+		// a new channel is open
+		closed := e.comp("ghost$closed", "(Array Int Bool)")
+		e.set(cur.st, closed, "(store "+e.get(cur.st, closed)+" "+r+" false)")
+		return Val{T: r, Ty: x.Type()}
 	case *ssa.MakeSlice:
 		l := fr.val(x.Len)
 		c := fr.val(x.Cap)
